@@ -83,7 +83,18 @@ def callee_teachers_round(eng, st, args, kw, node):
     return r
 
 
-DEFAULT_CALLEES = {'teachers_round': callee_teachers_round, 'round': callee_teachers_round, 'degrees_und': callee_degrees_und, 'degrees_dir': callee_degrees_dir, 'strengths_und': callee_strengths_und, 'pick_four_unique_nodes_quickly': callee_pick_four, 'get_rng': callee_get_rng, 'number_of_components': callee_number_of_components}
+def callee_binarize(eng, st, args, kw, node):
+    """contract of bct.utils.binarize (proved: contracts/utils.py) for copy=True: a fresh matrix, 1 where the argument is non-zero, 0 elsewhere."""
+    import z3
+    from . import npspec
+    cp = kw.get('copy', args[1] if len(args) > 1 else True)
+    if cp is not True:
+        raise OutOfSubset('binarize with copy != True inside a function under contract')
+    m = npspec.as_mat(eng, st, args[0])
+    return npspec.materialise(eng, st, core.Mat(m.shape, lambda x, y: z3.If(core.to_z3(m.fn(x, y), core.REAL) != 0, z3.RealVal(1), z3.RealVal(0)), core.REAL))
+
+
+DEFAULT_CALLEES = {'binarize': callee_binarize, 'teachers_round': callee_teachers_round, 'round': callee_teachers_round, 'degrees_und': callee_degrees_und, 'degrees_dir': callee_degrees_dir, 'strengths_und': callee_strengths_und, 'pick_four_unique_nodes_quickly': callee_pick_four, 'get_rng': callee_get_rng, 'number_of_components': callee_number_of_components}
 
 
 def generate(contract, callees=None):
